@@ -12,10 +12,12 @@ import (
 	"sync"
 	"sync/atomic"
 
+	"github.com/ipfs/boxo/path"
 	"github.com/ipfs/go-cid"
 	format "github.com/ipfs/go-ipld-format"
 	merkledag "github.com/ipfs/go-merkledag"
 	coreiface "github.com/ipfs/kubo/core/coreiface"
+	"github.com/ipfs/kubo/core/coreiface/options"
 	"github.com/ipld/go-ipld-prime/codec/dagcbor"
 	basicnode "github.com/ipld/go-ipld-prime/node/basic"
 	mh "github.com/multiformats/go-multihash"
@@ -44,6 +46,21 @@ type Store struct {
 	addFail func(nth int, c cid.Cid) error // optional; nth = number of Add calls so far (0-based)
 	gate    *Gate
 	events  atomic.Int64
+	pins    []string
+	pinFail func(nth int) error
+}
+
+// Pins returns the recorded pin roots.
+func (s *Store) Pins() []string {
+	s.mu.Lock()
+	defer s.mu.Unlock()
+	return append([]string(nil), s.pins...)
+}
+
+func (s *Store) SetPinFail(f func(nth int) error) {
+	s.mu.Lock()
+	defer s.mu.Unlock()
+	s.pinFail = f
 }
 
 func NewStore() *Store {
@@ -191,6 +208,26 @@ type api struct {
 }
 
 func (a *api) Dag() coreiface.APIDagService { return &dagSvc{a: a} }
+
+// Pin returns a pin service that records pin roots without fetching them (the
+// CoreAPI contract does not promise that a pin verifies local presence).
+func (a *api) Pin() coreiface.PinAPI { return &pinSvc{a: a} }
+
+type pinSvc struct {
+	coreiface.PinAPI // nil: only Add is used by the library
+	a                *api
+}
+
+func (p *pinSvc) Add(ctx context.Context, pth path.Path, _ ...options.PinAddOption) error {
+	s := p.a.s
+	s.mu.Lock()
+	defer s.mu.Unlock()
+	s.pins = append(s.pins, pth.String())
+	if s.pinFail != nil {
+		return s.pinFail(len(s.pins) - 1)
+	}
+	return nil
+}
 
 type dagSvc struct{ a *api }
 
